@@ -985,11 +985,47 @@ def sch_active(ctx: Ctx) -> RuleResult:
     raise Undecided(f"{f.short}: activation decision not recognised: {norm_src(final)}")
 
 
+def sch_taskdone(ctx: Ctx) -> RuleResult:
+    """The task the scheduler tracks for an async-thread node completes only when the node function has completed."""
+    r = RuleResult("SCH-TASKDONE")
+    m = model(ctx)
+    callees = {info["callee"] for info in m.dispatch.values() if info["kind"] == "async"}
+    if not callees:
+        raise Undecided("no async dispatch found")
+    for q in sorted(callees):
+        f = ctx.P.funcs[q]
+        r.ob(f.is_async, {"async dispatch wrapper": f.short, "is a coroutine function": f.is_async})
+        if not f.is_async:
+            raise Undecided(f"{f.short}: async dispatch wrapper is not a coroutine function (form not modelled)")
+        awaited = {id(n.value) for n in iter_own_nodes(f.node) if isinstance(n, ast.Await)}
+        calls = [n for n in iter_own_nodes(f.node) if isinstance(n, ast.Call) and isinstance(n.func, ast.Attribute)
+                 and n.func.attr == "run_in_executor"]
+        for c in calls:
+            ok = id(c) in awaited
+            # a future bound to a name and awaited later
+            if not ok:
+                for st in iter_own_nodes(f.node):
+                    if isinstance(st, ast.Assign) and st.value is c and isinstance(st.targets[0], ast.Name):
+                        nm = st.targets[0].id
+                        ok = any(isinstance(a, ast.Await) and dotted(a.value) == nm for a in iter_own_nodes(f.node))
+            r.ob(ok, {"in": f.short, "pool submission": norm_src(c), "awaited by the wrapper": ok})
+            if not ok:
+                r.violate(f"{f.short}: the future returned by run_in_executor is not awaited", f.loc(c),
+                          "the coroutine (hence the task the scheduler tracks for the node) completes as soon as the work is handed to "
+                          "the pool: the scheduler removes the node from the graph and releases its dependents while the node function "
+                          "is still running (they read a missing result as None)", norm_src(c))
+        # the function that is run on the worker is the one passed in
+        p0 = f.node.args.args[0].arg if f.node.args.args else None
+        uses = any(isinstance(n, ast.Name) and n.id == p0 for n in iter_own_nodes(f.node))
+        r.ob(uses, {"runs the callable it is given": uses})
+    return r
+
+
 RULES = {
     "SCH-ORIGIN": sch_origin, "SCH-RSET": sch_rset, "SCH-ROOTS": sch_roots, "SCH-DONE": sch_done, "SCH-ONCE": sch_once,
     "SCH-PRUNE": sch_prune, "SCH-BOUND": sch_bound, "SCH-COUNT": sch_count, "SCH-ARMS": sch_arms,
     "SCH-SEQ-PRE": sch_seq_pre, "SCH-SEQ-POST": sch_seq_post, "SCH-PRIO": sch_prio, "SCH-FRESHPICK": sch_freshpick,
     "SCH-WAITSITES": sch_waitsites, "SCH-WAITMODE": sch_waitmode, "SCH-GUARD": sch_guard, "SCH-MIXWAIT": sch_mixwait,
     "SCH-PROGRESS": sch_progress, "SCH-EXIT": sch_exit, "SCH-EMPTYWAIT": sch_emptywait, "SCH-DEACT": sch_deact,
-    "SCH-ACTIVE": sch_active, "SCH-POOLSIZE": sch_poolsize,
+    "SCH-ACTIVE": sch_active, "SCH-POOLSIZE": sch_poolsize, "SCH-TASKDONE": sch_taskdone,
 }
